@@ -143,6 +143,12 @@ theorem copyFrom_inputSet (s : CallSt) (prev : Option Vtx) (v : Vtx) :
   · simp
   · rfl
 
+theorem valCopy_inputSet (c : Ctx) (s : CallSt) (prev : Option Vtx) (v : Vtx) :
+    (valCopy c s prev v).inputSet = s.inputSet := by
+  rcases valCopy_cases c s prev v with h | ⟨_, _, _, _, _, _, _, h⟩ <;> rw [h]
+  · exact copyFrom_inputSet s prev v
+  · simp
+
 theorem argStore_inputSet (c : Ctx) (s : CallSt) (t : Nat) (v : Vtx) :
     (argStore c s t v).inputSet = s.inputSet := by
   unfold argStore
@@ -165,7 +171,7 @@ theorem walkStep_P (c : Ctx) (rec : Vtx → CallSt → Except RErr ArgMap × Cal
     | root => rw [walkStep_root c rec herr]; exact hw
     | value n t u =>
       rw [walkStep_value c rec herr]
-      exact hw.congr (copyFrom_inputSet _ _ _)
+      exact hw.congr (valCopy_inputSet _ _ _ _)
     | arg t u =>
       rw [walkStep_arg c rec herr]
       exact hw.congr (argStore_inputSet _ _ _ _)
